@@ -282,13 +282,26 @@ Fixpoint split_dot_aux (s : ustring) (cur : ustring) : list ustring :=
 Definition split_dot (s : ustring) : list ustring := split_dot_aux s [].
 
 (* SELECTOR_REGEX = ^([a-z0-9_-]{3,250}(\.(\[\d+\]|[a-z0-9_-]{1,250}))*|id)$ used with re.match:
-   `$` also matches before one trailing newline; \d is modelled for ASCII digits
-   (the harness generates no other digits).  Neither '.' nor '[' is in the
+   `$` also matches before one trailing newline; \d is the Unicode decimal digits (nd_ranges).  Neither '.' nor '[' is in the
    character class, so matching is deterministic on the '.'-split.            *)
 Definition is_lower_key_char (x : N) : bool :=
   ((97 <=? x) && (x <=? 122) || (48 <=? x) && (x <=? 57) || (x =? 95) || (x =? 45))%N.
 Definition is_upper (x : N) : bool := ((65 <=? x) && (x <=? 90))%N.
-Definition is_digit (x : N) : bool := ((48 <=? x) && (x <=? 57))%N.
+(* \d of a str pattern: the decimal digits of Unicode (category Nd) as the running CPython's `re` sees
+   them (Unicode 15.0: 64 ranges, 680 code points).  The table is compared on every run with what
+   SELECTOR_REGEX accepts between the brackets, code point by code point (harness/props/c08.py). *)
+Definition nd_ranges : list (N * N) := [
+  (48,57); (1632,1641); (1776,1785); (1984,1993); (2406,2415); (2534,2543); (2662,2671); (2790,2799);
+  (2918,2927); (3046,3055); (3174,3183); (3302,3311); (3430,3439); (3558,3567); (3664,3673);
+  (3792,3801); (3872,3881); (4160,4169); (4240,4249); (6112,6121); (6160,6169); (6470,6479);
+  (6608,6617); (6784,6793); (6800,6809); (6992,7001); (7088,7097); (7232,7241); (7248,7257);
+  (42528,42537); (43216,43225); (43264,43273); (43472,43481); (43504,43513); (43600,43609);
+  (44016,44025); (65296,65305); (66720,66729); (68912,68921); (69734,69743); (69872,69881);
+  (69942,69951); (70096,70105); (70384,70393); (70736,70745); (70864,70873); (71248,71257);
+  (71360,71369); (71472,71481); (71904,71913); (72016,72025); (72784,72793); (73040,73049);
+  (73120,73129); (73552,73561); (92768,92777); (92864,92873); (93008,93017); (120782,120831);
+  (123200,123209); (123632,123641); (124144,124153); (125264,125273); (130032,130041)]%N.
+Definition is_digit (x : N) : bool := existsb (fun r => (fst r <=? x) && (x <=? snd r))%N nd_ranges.
 
 Definition key_chars_ok (c : cfg) (first : bool) (s : ustring) : bool :=
   forallb (fun x => is_lower_key_char x ||
